@@ -123,8 +123,8 @@ HARNESS(h_r48_init)
 }
 
 #if defined(__CPROVER__) && defined(UF_ARITH)
-#define FADD(a, b) __CPROVER_uninterpreted_fadd_float(a, b)
-#define FMUL(a, b) __CPROVER_uninterpreted_fmul_float(a, b)
+#define FADD(a, b) verif_uf_fadd_float(a, b)
+#define FMUL(a, b) verif_uf_fmul_float(a, b)
 #else
 #define FADD(a, b) ((a) + (b))
 #define FMUL(a, b) ((a) * (b))
